@@ -13,9 +13,10 @@ def plan(ctx):
         if shapes is None:
             shapes = h.GENERIC
             uncovered.append(f"builtin {name!r} is not in the shape table: only generic argument shapes were tried")
+        shapes = list(shapes) + [x for x in h.ANY_POSITION if x not in shapes and not (name in ('shuffle', 'rand') and x[0] in 'WM')]
         for sh in shapes:
             obs.append(Obligation(f"fn.{name}.{sh or 'noargs'}", "xh", "c13", "nonmut", param={"fn": name, "shape": sh}, timeout=T,
-                                  bounds="lists 0..3 symbolic ints, nested [[a],[b,c]], dict {'p':a,'q':[b]}; key/reverse flags symbolic",
+                                  bounds="lists 0..3 symbolic ints, nested [[a],[b,c]], dict {'p':a,'q':[b]}, lists of strings / mixed values in any argument position; key/reverse flags symbolic",
                                   desc=f"FUNCTIONS[{name!r}] with argument shape {sh!r}: deep snapshot of list/dict arguments equal before and after (return or raise)"))
     for m in sorted(h.MUTATORS):
         if m not in FUNCTIONS:
